@@ -187,6 +187,15 @@ def classify(exp, table, gen_text, diags):
                 name = "vstd:%s:%s" % (os.path.basename(vs["file"]), vs["line"])
             else:
                 name = "implicit"
+                if kind == "assertion" and prim:
+                    # an assertion spliced in as a proof hint (or an assert! of the repo): name it by its text
+                    try:
+                        tx = prim[0]["text"][0]
+                        frag = tx["text"][tx["highlight_start"] - 1:tx["highlight_end"] - 1]
+                        if frag.strip():
+                            name = "[%s]" % re.sub(r"\s+", " ", frag.strip())[:90]
+                    except Exception:
+                        pass
         if site:
             fnid = fn_at(exp, site)
             ob["in_fn"] = fnid
